@@ -43,7 +43,7 @@ TraceProbe ==
 
 TraceSwap ==
   /\ IsEvent("swap")
-  /\ ("C16" \in Lens) => Trace[l].held                \* the table is only replaced under its write lock
+  /\ ("DISC" \in Lens) => Trace[l].held               \* lock discipline of the present design (drift detector only)
 
 (* serial runs of a batch of DHCPv6 messages: message after message gets     *)
 (* its blocks while they last ("any": what the client holds, else a new      *)
